@@ -4,8 +4,9 @@
 
    Strings are the UTF-8 bytes of the Python str.  Unless a hypothesis says otherwise the
    statements hold for EVERY byte string, not only for proto identifiers. *)
-From BP Require Import Base.Prelude Model.Casing.
+From BP Require Import Base.Prelude Model.Casing Model.C19Norm Spec.C19Regex Spec.C19Unicode.
 From BP Require Import Proofs.CasingP Proofs.CasingP2 Proofs.CasingP3 Proofs.CasingP4.
+From BP Require Import Proofs.CasingX1 Proofs.CasingX2 Proofs.CasingX3 Proofs.CasingX6 Proofs.CasingX8.
 From Coq Require Import String.
 Local Notation b := list_byte_of_string.
 
@@ -156,6 +157,160 @@ Theorem C19_side_conditions_exact_len5_partial : all_strings alphabet8 5 [] side
 Proof. exact side_conditions_exact_len5. Qed.
 Print Assumptions C19_side_conditions_exact_len5_partial.
 
+(* ---- the side conditions are exact, for EVERY byte string (no bound on the length, no alphabet) ----
+   Each decidable side condition is necessary as well as sufficient: it DECIDES the unconditional statement.
+   (Proofs/CasingX1.v, CasingX2.v.)  The finding classes key-safety / K10 / K11 of the check are assigned by
+   these predicates, so the classes are exactly the sets of names on which the property fails. *)
+
+(* (a) camelCase keys: the key maps back through the casing functions alone iff key_safe *)
+Theorem C19_key_safe_necessary : forall s, key_safe s = false ->
+  safe_snake_case (camel_key (safe_snake_case s)) <> safe_snake_case s.
+Proof. exact key_unsafe_not_back. Qed.
+Print Assumptions C19_key_safe_necessary.
+
+Theorem C19_key_safe_iff : forall s, key_safe s = true <->
+  safe_snake_case (camel_key (safe_snake_case s)) = safe_snake_case s.
+Proof. exact key_safe_iff. Qed.
+Print Assumptions C19_key_safe_iff.
+
+(* the same with camel_case itself (the .rstrip("_") of to_dict is a no-op, C19_rstrip_is_noop) *)
+Theorem C19_key_safe_iff_camel_case : forall s, key_safe s = true <->
+  safe_snake_case (camel_case (safe_snake_case s)) = safe_snake_case s.
+Proof. exact key_safe_iff_camel_case. Qed.
+Print Assumptions C19_key_safe_iff_camel_case.
+
+(* the pinned from_dict lookup finds the field from its camelCase key iff key_safe; with that field alone the
+   key addresses nothing at all (the value is silently dropped) *)
+Theorem C19_pinned_lookup_iff : forall fs s, In (safe_snake_case s) fs ->
+  (field_for_key_pinned fs (camel_key (safe_snake_case s)) = Some (safe_snake_case s) <-> key_safe s = true).
+Proof. exact field_for_key_pinned_iff. Qed.
+Print Assumptions C19_pinned_lookup_iff.
+
+Theorem C19_pinned_lookup_lost : forall s, key_safe s = false ->
+  field_for_key_pinned [safe_snake_case s] (camel_key (safe_snake_case s)) = None.
+Proof. exact field_for_key_pinned_lost. Qed.
+Print Assumptions C19_pinned_lookup_lost.
+
+(* (b) PascalCase is idempotent on s iff pascal_stable s  (K10 = exactly the names with pascal_stable = false) *)
+Theorem C19_pascal_stable_necessary : forall s, pascal_stable s = false ->
+  pythonize_class_name (pythonize_class_name s) <> pythonize_class_name s.
+Proof. exact pascal_unstable. Qed.
+Print Assumptions C19_pascal_stable_necessary.
+
+Theorem C19_pascal_stable_iff : forall s, pascal_stable s = true <->
+  pythonize_class_name (pythonize_class_name s) = pythonize_class_name s.
+Proof. exact pascal_stable_iff. Qed.
+Print Assumptions C19_pascal_stable_iff.
+
+(* (c) the class name is an identifier and not a keyword iff class_name_ok  (K11 = exactly class_name_ok = false) *)
+Theorem C19_class_name_ok_necessary : forall s, class_name_ok s = false ->
+  is_identifier (pythonize_class_name s) = false \/ is_keyword (pythonize_class_name s) = true.
+Proof. exact class_name_bad. Qed.
+Print Assumptions C19_class_name_ok_necessary.
+
+Theorem C19_class_name_ok_iff : forall s, class_name_ok s = true <->
+  is_identifier (pythonize_class_name s) = true /\ is_keyword (pythonize_class_name s) = false.
+Proof. exact class_name_ok_iff. Qed.
+Print Assumptions C19_class_name_ok_iff.
+
+(* the boolean swept by C19_side_conditions_exact_len5_partial is true of EVERY string; hence the sweep over any
+   alphabet, any length, any prefix (the _partial theorem is the instance alphabet8, 5, []) *)
+Theorem C19_side_conditions_exact : forall s, side_conditions_exact s = true.
+Proof. exact side_conditions_exact_all. Qed.
+Print Assumptions C19_side_conditions_exact.
+
+Theorem C19_side_conditions_exact_sweep : forall alphabet n p, all_strings alphabet n p side_conditions_exact = true.
+Proof. exact side_conditions_exact_sweep. Qed.
+Print Assumptions C19_side_conditions_exact_sweep.
+
+(* ---- the image of snake_case, for every byte string (non-ASCII input included: such bytes are delimiters) ---- *)
+(* every value is over [a-z0-9_] *)
+Theorem C19_snake_alphabet : forall s, forallb snake_alphabet (snake_case s) = true.
+Proof. exact snake_alphabet_all. Qed.
+Print Assumptions C19_snake_alphabet.
+
+(* ... and the values are EXACTLY the strings in the decidable normal form snake_nf (Model/C19Norm.v):
+   [a-z0-9_]*, no "_" at either end, no "__", no digit directly followed by a lower-case letter *)
+Theorem C19_snake_image : forall x, (exists s, snake_case s = x) <-> snake_nf x = true.
+Proof. exact snake_image. Qed.
+Print Assumptions C19_snake_image.
+
+Theorem C19_snake_fixed_iff : forall x, snake_nf x = true <-> snake_case x = x.
+Proof. exact snake_nf_iff_fixed. Qed.
+Print Assumptions C19_snake_fixed_iff.
+
+(* the generated field / method names are exactly the fixed points of safe_snake_case *)
+Theorem C19_field_name_image : forall x, (exists s, pythonize_field_name s = x) <-> pythonize_field_name x = x.
+Proof. exact safe_snake_image. Qed.
+Print Assumptions C19_field_name_image.
+
+(* sanitize_name is idempotent on [A-Za-z0-9_]*; an enum member name is a fixed point of it *)
+Theorem C19_sanitize_idem : forall x, ident_chars x = true -> sanitize_name (sanitize_name x) = sanitize_name x.
+Proof. exact sanitize_idem. Qed.
+Print Assumptions C19_sanitize_idem.
+
+(* [A-Za-z0-9_]* is exactly where sanitize_name yields an identifier (the hypothesis of C19_sanitize_ident is necessary) *)
+Theorem C19_sanitize_ident_iff : forall x, is_identifier (sanitize_name x) = true <-> ident_chars x = true.
+Proof. exact sanitize_ident_iff. Qed.
+Print Assumptions C19_sanitize_ident_iff.
+
+Theorem C19_enum_member_fixed : forall name enum_name, ident_chars name = true ->
+  sanitize_name (pythonize_enum_member_name name enum_name) = pythonize_enum_member_name name enum_name.
+Proof. exact enum_member_sanitize_fixed. Qed.
+Print Assumptions C19_enum_member_fixed.
+
+(* ---- from_dict with the key table: pairwise distinct to_dict keys are NECESSARY as well as sufficient ---- *)
+Theorem C19_from_dict_camel_back_iff : forall fs,
+  (forall f, In f fs -> field_for_key fs (camel_key f) = Some f) <->
+  (forall f g, In f fs -> In g fs -> camel_key f = camel_key g -> f = g).
+Proof. exact field_for_key_camel_iff. Qed.
+Print Assumptions C19_from_dict_camel_back_iff.
+
+(* a class of generated field names (fixed points of safe_snake_case) with pairwise distinct camelCase keys:
+   BOTH keys to_dict can emit address their own field (no key_safe needed) *)
+Theorem C19_from_dict_generated_keys_back : forall fs,
+  (forall f, In f fs -> safe_snake_case f = f) ->
+  (forall f g, In f fs -> In g fs -> camel_key f = camel_key g -> f = g) ->
+  forall f, In f fs -> field_for_key fs (camel_key f) = Some f /\ field_for_key fs (snake_key f) = Some f.
+Proof. exact field_for_key_generated. Qed.
+Print Assumptions C19_from_dict_generated_keys_back.
+
+(* ---- the scanner IS re.sub over the live pattern strings (Spec/C19Regex.v) ----
+   snake_case_spec / pascal_case_spec parse the pattern text captured from the live module (gen/C19Tables.v) into a
+   regex AST, run a generic backtracking matcher (Python priority order, captures, negative lookahead) inside the
+   re.sub loop of CPython (empty matches, must_advance) and apply casing.py's substitute_word callbacks.
+   The hand-derived scanner of Model/Casing.v computes exactly that, for every byte string. *)
+Theorem C19_snake_case_is_re_sub : forall s, snake_case_spec s = Some (snake_case s).
+Proof. exact snake_case_meets_spec. Qed.
+Print Assumptions C19_snake_case_is_re_sub.
+
+Theorem C19_pascal_case_is_re_sub : forall s, pascal_case_spec s = Some (pascal_case s).
+Proof. exact pascal_case_meets_spec. Qed.
+Print Assumptions C19_pascal_case_is_re_sub.
+
+Theorem C19_camel_case_is_re_sub : forall s, camel_case_spec s = Some (camel_case s).
+Proof. exact camel_case_meets_spec. Qed.
+Print Assumptions C19_camel_case_is_re_sub.
+
+(* ---- a str as code points (CPython) versus a str as UTF-8 bytes (this framework) ----
+   Spec/C19Unicode.v runs the same regex specification on the CODE POINTS of the string (a character set then matches
+   one code point) with the callbacks of casing.py; encoding the result as UTF-8 gives exactly what the model gives on
+   the UTF-8 bytes of the input.  For every string of code points below 0x110000. *)
+Theorem C19_snake_case_code_points : forall s, forallb valid_cp s = true ->
+  option_map utf8 (snake_case_cp s) = Some (snake_case (utf8 s)).
+Proof. exact snake_case_code_points. Qed.
+Print Assumptions C19_snake_case_code_points.
+
+Theorem C19_pascal_case_code_points : forall s, forallb valid_cp s = true ->
+  option_map utf8 (pascal_case_cp s) = Some (pascal_case (utf8 s)).
+Proof. exact pascal_case_code_points. Qed.
+Print Assumptions C19_pascal_case_code_points.
+
+Theorem C19_camel_case_code_points : forall s, forallb valid_cp s = true ->
+  option_map utf8 (camel_case_cp s) = Some (camel_case (utf8 s)).
+Proof. exact camel_case_code_points. Qed.
+Print Assumptions C19_camel_case_code_points.
+
 (* ---- non-vacuity ---- *)
 Example C19_ex_field : map (fun s => string_of_list_byte (pythonize_field_name (b s)))
     ["HTTPStatus"; "address_line_1"; "from"; "_"; "_1"; "fooBAR"; "None"]%string
@@ -181,4 +336,42 @@ Example C19_ex_from_dict : field_for_key [b "address_line_1"] (b "addressLine1")
   /\ field_for_key [b "x_yz"; b "x_y_z"] (b "xYz") = Some (b "x_yz")
   /\ field_for_key [b "x_yz"; b "x_y_z"] (b "x_y_z") = Some (b "x_y_z")
   /\ field_for_key [b "from_"] (b "from") = Some (b "from_").
+Proof. vm_compute. repeat split. Qed.
+(* both sides of every iff are inhabited, also outside the swept alphabet (keywords, non-ASCII bytes, other symbols) *)
+Example C19_ex_exact :
+  map key_safe [b "ipv4_address"; b "address_line_1"; b "x_y_z"; b "x-y:z9"; b "from"; [x63; x61; x66; xc3; xa9; x5f; x31]]
+    = [true; false; false; false; true; false]
+  /\ map pascal_stable [b "HTTPStatus"; b "a_b"; b "x.y"; b "a_1b"; b "q_r2"; b "a_bc"] = [true; false; false; true; false; true]
+  /\ map class_name_ok [b "Foo.Bar"; b "_"; b "_1"; b "none"; b "NONE"; b "_true_"; b "none_x"; [xc3; xa9]]
+    = [true; false; false; false; false; false; true; false].
+Proof. vm_compute. repeat split. Qed.
+Example C19_ex_snake_nf : map snake_nf [b "http_server1_x"; b ""; b "a1_b"; b "a1b"; b "_a"; b "a_"; b "a__b"; b "aB"; b "1_2"]
+    = [true; true; true; false; false; false; false; false; true]
+  /\ snake_case (b "a1b") = b "a1_b".
+Proof. vm_compute. repeat split. Qed.
+(* the regex specification really runs: the pattern strings parse, backtracking happens (HTTPServer gives the S back),
+   the empty match at the end is replaced by "", re.sub keeps unmatched text and honours must_advance (x* on "abxd") *)
+Example C19_ex_regex_spec :
+  snake_case_spec (b "__HTTPServer1x.fooBar_XY9z") = Some (b "http_server1_x_foo_bar_xy9_z")
+  /\ pascal_case_spec (b "__HTTPServer1x.fooBar_XY9z") = Some (b "HttpServer1XFooBarXy9Z")
+  /\ camel_case_spec (b "address_line_1") = Some (b "addressLine1")
+  /\ option_map (fun r => re_sub byte_code r (fun _ => b "-") (b "abxd")) (parse (b "x*")) = Some (b "-a-b--d-")
+  /\ option_map (fun r => re_sub byte_code r (fun caps => b "[" ++ group_str 1 caps ++ b "]") (b "baac")) (parse (b "(a|)")) = Some (b "[]b[a][a][]c[]")
+  /\ parse (b "a*?") = None /\ parse (b "\\d") = None.
+Proof. vm_compute. repeat split. Qed.
+Example C19_ex_generated_keys :
+  let fs := [b "x_yz"; b "x_y_z"; b "from_"; b "a1"] in
+  forallb (fun f => str_eqb (safe_snake_case f) f) fs = true
+  /\ map camel_key fs = [b "xYz"; b "xYZ"; b "from"; b "a1"]
+  /\ map key_safe fs = [true; false; true; true].
+Proof. vm_compute. repeat split. Qed.
+(* "naïveÉName中1x" as code points: the non-ASCII letters are delimiters *)
+Example C19_ex_code_points :
+  let s := [110; 97; 239; 118; 101; 201; 78; 97; 109; 101; 20013; 49; 120]%N in
+  forallb valid_cp s = true
+  /\ utf8 s = [x6e; x61; xc3; xaf; x76; x65; xc3; x89; x4e; x61; x6d; x65; xe4; xb8; xad; x31; x78]
+  /\ option_map utf8 (snake_case_cp s) = Some (b "na_ve_name_1_x")
+  /\ option_map utf8 (pascal_case_cp s) = Some (b "NaVeName1X")
+  /\ option_map utf8 (camel_case_cp s) = Some (b "naVeName1X")
+  /\ utf8 [128512%N] = [xf0; x9f; x98; x80].
 Proof. vm_compute. repeat split. Qed.
